@@ -229,3 +229,13 @@ mod tests {
         assert_eq!(src_box, dst_box);
     }
 }
+
+#[cfg(mp4_verif)]
+pub fn verif_language_string(language: u16) -> String {
+    language_string(language)
+}
+
+#[cfg(mp4_verif)]
+pub fn verif_language_code(language: &str) -> u16 {
+    language_code(language)
+}
